@@ -156,6 +156,12 @@ class Interp:
                 if isinstance(v, Vec):
                     return Vec(v.deg, v.pw, v.acc, self.fresh())
                 return v
+            if f in ('np.empty_like', 'np.zeros_like', 'np.empty', 'np.zeros') and a:
+                # a fresh array of the same length, to be filled completely by a scatter through a permutation
+                v = self.ev(a[0]) if f.endswith('_like') else None
+                w = Vec(0, 0, None, self.fresh())
+                w.blank_like = v.ver if isinstance(v, Vec) else None
+                return w
             if f == 'np.square' and len(a) == 1:
                 v = self.ev(a[0])
                 if isinstance(v, Vec) and not v.acc:
@@ -242,7 +248,10 @@ class Interp:
                     v = self.ev(s.value)
                     if isinstance(base, Vec) and isinstance(p, Perm) and isinstance(v, Vec):
                         g = getattr(v, 'cum_of', None)
-                        asc = g is not None and g[0].ver == base.ver and p.ver == base.ver and p.asc
+                        # scatter back into the array the values were gathered from, or into a blank array of the same
+                        # length (a permutation fills every slot): entry i holds the accumulated weight up to entry i
+                        src = base.ver if not hasattr(base, 'blank_like') else (g[1] if g is not None else None)
+                        asc = g is not None and g[0].ver == src and p.ver == src and p.asc
                         self.env[t.value.id] = Vec(v.deg, v.pw, 'asc' if asc else 'other', self.fresh())
                         continue
                     self.env[t.value.id] = Unknown(f'store `{norm(s)[:50]}` not recognised')
